@@ -139,6 +139,10 @@ package handler
 //@   ghost at after ParseToken#0: tk = ret0
 //@   ghost at after ParseToken#0: tv = ret0.Valid
 //@   call ParseToken#0: assert arg_secret == secret && arg_prevSecret == authOpts.PrevSecret && arg_r == r
+// every custom claim is added on top of the context built so far (none is dropped by restarting from the request's context),
+// and the handler is served under the context that carries them all
+//@   call WithValue#*: assert arg_parent == ctx && arg_key == k && arg_val == v
+//@   call WithContext#0: assert arg_ctx == ctx && arg_recv == r
 //@   ensures (served == old(served) + 1 && unauths == old(unauths)) || (served == old(served) && unauths == old(unauths) + 1)
 //@   ensures implies(served == old(served) + 1, pe == nil && tk != nil && tv)
 //@   ensures_panic served == old(served) + 1 && pe == nil && tk != nil && tv
